@@ -41,6 +41,10 @@ const LEXERR: &str = "fn main() -> u8\n{\n\tvar x: u8 = 1 $ 2;\n\treturn: x\n}\n
 const TYPEERR: &str = "fn main() -> u8\n{\n\tvar flag: bool = true;\n\tvar x: u8 = flag;\n\tvar y: u8 = missing;\n\treturn: x\n}\n";
 const BADLIB: &str = "pub fn lib_value() -> u8\n{\n\tvar flag: bool = true;\n\treturn: flag\n}\n";
 const LINT: &str = "fn main() -> u8\n{\n\tvar x: u8 = 300;\n\treturn: x\n}\n";
+const PUBVALUE: &str = "pub fn value() -> u8\n{\n\treturn: 1\n}\n";
+const PUBEXTVALUE: &str = "pub extern fn value() -> u8\n{\n\treturn: 2\n}\n";
+const MAINPUBVALUE: &str = "pub fn value() -> u8\n{\n\treturn: 3\n}\nfn main() -> u8\n{\n\treturn: value()\n}\n";
+const MAINPUBEXTVALUE: &str = "pub extern fn value() -> u8\n{\n\treturn: 4\n}\nfn main() -> u8\n{\n\treturn: value()\n}\n";
 const UNRESOLVED: &str = "import \"vendor:nothing/here.pn\";\nimport \"core:text\";\n\nfn main() -> u8\n{\n\treturn: 1\n}\n";
 
 pub fn inputs() -> Vec<InputClass>
@@ -56,6 +60,10 @@ pub fn inputs() -> Vec<InputClass>
 		InputClass { name: "unresolved imports", files: vec![("unresolved.pn", UNRESOLVED)], missing: false, link_conflict: false, program: None },
 		InputClass { name: "empty file", files: vec![("empty.pn", "")], missing: false, link_conflict: false, program: None },
 		InputClass { name: "two files that both define main", files: vec![("ok.pn", OK), ("other.pn", LINT)], missing: false, link_conflict: true, program: None },
+		InputClass { name: "two files that both define a pub function", files: vec![("mainv.pn", MAINPUBVALUE), ("value.pn", PUBVALUE)], missing: false, link_conflict: true, program: None },
+		InputClass { name: "two files that both define a pub extern function", files: vec![("mainxv.pn", MAINPUBEXTVALUE), ("xvalue.pn", PUBEXTVALUE)], missing: false, link_conflict: true, program: None },
+		InputClass { name: "a pub function and a pub extern function of the same name", files: vec![("mainv.pn", MAINPUBVALUE), ("xvalue.pn", PUBEXTVALUE)], missing: false, link_conflict: true, program: None },
+		InputClass { name: "a pub extern function and a pub function of the same name", files: vec![("mainxv.pn", MAINPUBEXTVALUE), ("value.pn", PUBVALUE)], missing: false, link_conflict: true, program: None },
 		InputClass { name: "missing file", files: vec![("ok.pn", OK), ("nowhere.pn", "")], missing: true, link_conflict: false, program: None },
 	]
 }
